@@ -44,6 +44,7 @@ def gen_case(rng):
     elif mode < 0.6 and case["return_as"] != "list":
         call["close_after"] = rng.randint(0, min(n, 12))
         call["close_other"] = rng.random() < 0.5          # the generator is closed by another thread than the caller's
+        call["at_once"] = call["close_other"] and rng.random() < 0.5     # ... and the object is reused as soon as close() has returned
         if call["close_other"] and rng.random() < 0.5 and n > 3:
             # ... while the input is in the middle of producing item j for a completion callback (a slow input iterable)
             call["close_at_pull"] = rng.randint(2, min(n - 1, 12))
@@ -100,8 +101,11 @@ def consumer(w, s, p, c, gen, rec):
             s.yp("close_other")
             gen.close()
             # close() has returned in the foreign thread: from here on nothing may be taken or dispatched ...
+            if call.get("at_once"):
+                rec["detached_abort_pending"] = True
             pc.mark_over(w, rec)
             done.append(1)
+            s.wake(s.main)
         def start_closer():
             if not started:
                 started.append(1)
@@ -124,9 +128,12 @@ def consumer(w, s, p, c, gen, rec):
                 s.sleep(0.005)
         start_closer()
         while not done:
-            s.sleep(0.001)
+            if call.get("at_once"):
+                s.block()              # woken by the closing thread
+            else:
+                s.sleep(0.001)
         # ... and joblib's helper thread finishes the abort in the background: wait for it before the object is reused
-        while any(x.role.startswith("GeneratorExitThread") and s.alive(x) for x in s.threads):
+        while not call.get("at_once") and any(x.role.startswith("GeneratorExitThread") and s.alive(x) for x in s.threads):
             s.sleep(0.01)
         w.probes["closed_by_foreign_thread"] += 1
     else:
